@@ -1398,15 +1398,13 @@ func (self *LockDB) GetOrNewLockManager(command *protocol.LockCommand) *LockMana
 	fastValue := &self.fastLocks[fastHash%self.fastKeyCount]
 
 	if atomic.CompareAndSwapUint32(&fastValue.lock, 0, 1) {
-		if atomic.LoadUint32(&fastValue.count) > 0 {
-			self.mGlock.RLock()
-			if lockManager, ok := self.locks[command.LockKey]; ok && atomic.LoadUint32(&lockManager.refCount) != 0xffffffff {
-				self.mGlock.RUnlock()
-				atomic.CompareAndSwapUint32(&fastValue.lock, 1, 0)
-				return lockManager
-			}
+		self.mGlock.RLock()
+		if lockManager, ok := self.locks[command.LockKey]; ok && atomic.LoadUint32(&lockManager.refCount) != 0xffffffff {
 			self.mGlock.RUnlock()
+			atomic.CompareAndSwapUint32(&fastValue.lock, 1, 0)
+			return lockManager
 		}
+		self.mGlock.RUnlock()
 
 		verifPoint("mgr.fast.alloc", fastValue, command)
 		freeLockManagerTail := atomic.AddUint32(&self.freeLockManagerTail, 1) % self.maxFreeLockManagerCount
@@ -1474,6 +1472,19 @@ func (self *LockDB) GetOrNewLockManager(command *protocol.LockCommand) *LockMana
 		verifPoint("mgr.published", lockManager, command)
 		atomic.AddUint32(&lockManager.state.KeyCount, 1)
 		return lockManager
+	}
+
+	fastValueLock = atomic.LoadUint32(&fastValue.lock)
+	if fastValueLock == 1 {
+		self.mGlock.Unlock()
+		return self.GetOrNewLockManager(command)
+	}
+	if fastValueLock == 2 {
+		fastLockManager := fastValue.manager
+		if fastLockManager != nil && fastLockManager.lockKey == command.LockKey && atomic.LoadUint32(&fastLockManager.refCount) != 0xffffffff {
+			self.mGlock.Unlock()
+			return fastLockManager
+		}
 	}
 
 	freeLockManagerTail := atomic.AddUint32(&self.freeLockManagerTail, 1) % self.maxFreeLockManagerCount
